@@ -52,10 +52,11 @@ def run(ctx):
     ctx.exhaustive = True
 
     # ---- 1. TLC decides the laws -------------------------------------------------------------
-    law_runs = [("RingMergeLaws", "MC_laws_quick.cfg"), ("RingMergeLaws", "MC_laws_pairs_quick.cfg"),
+    law_runs = [("RingMergeLaws", "MC_laws_quick.cfg"),
                 ("PartitionMergeLaws", "MC_plaws_part_quick.cfg"), ("PartitionMergeLaws", "MC_plaws_own.cfg")]
     if not quick:
-        law_runs = [("RingMergeLaws", "MC_laws_full.cfg"), ("RingMergeLaws", "MC_laws_pairs_shared.cfg"),
+        law_runs = [("RingMergeLaws", "MC_laws_full.cfg"), ("RingMergeLaws", "MC_laws_pairs_quick.cfg"),
+                    ("RingMergeLaws", "MC_laws_pairs_shared.cfg"),
                     ("RingMergeLaws", "MC_laws_pairs_disjoint.cfg"),
                     ("PartitionMergeLaws", "MC_plaws_part_full.cfg"), ("PartitionMergeLaws", "MC_plaws_own.cfg"),
                     ("PartitionMergeLaws", "MC_plaws_mixed.cfg")]
@@ -63,21 +64,30 @@ def run(ctx):
     expect = 0
     for module, cfg in law_runs:
         r = rc.tlc_ok(ctx, module, cfg, coverage=(not quick and cfg.startswith(("MC_laws_full", "MC_plaws_part_full"))))
+        if r.coverage_zero:
+            raise verif.Inconclusive("%s: actions with zero coverage: %s" % (cfg, r.coverage_zero))
         if r.emitted:
             case_files.append(r.out_path)
             expect += r.emitted
         elif "EmitConv = TRUE" in open(os.path.join(verif.SPEC, rc.FAMILY, cfg)).read():
             raise verif.Inconclusive("%s: the provisos filtered every triple away (vacuous laws)" % cfg)
 
+    if not quick:   # the provisos are not decoration: without them TLC must refute commutativity
+        r = ctx.tlc(rc.FAMILY, "RingMergeLaws", cfg="MC_laws_noproviso.cfg", workers=rc.WORKERS or 2, timeout=rc.TLC_TIMEOUT, count=False)
+        if r.timed_out or r.error or r.violated != "CommWithoutProvisos":
+            raise verif.Inconclusive("MC_laws_noproviso.cfg: expected a counterexample to unconditional commutativity, got %s %s" % (
+                r.violated, (r.error or "")[:200]))
+        ctx.extra["provisos_shown_necessary"] = True
+
     # ---- 2. spec -> code: every enumerated merge ---------------------------------------------
-    nsl = 8 if quick else 1
+    nsl = 8 if quick else 2
     gen_runs = [("RingMergeGen", "MC_gen_n1.cfg", None),
                 ("RingMergeGen", "MC_gen_n2.cfg", {"@@NSLICES@@": nsl, "@@SLICE@@": ctx.seed % nsl}),
                 ("PartitionMergeGen", "MC_pgen_part.cfg", None), ("PartitionMergeGen", "MC_pgen_own.cfg", None),
-                ("PartitionMergeGen", "MC_pgen_own2.cfg", None), ("PartitionMergeGen", "MC_pgen_mixed.cfg", None)]
+                ("PartitionMergeGen", "MC_pgen_mixed.cfg", None)]
     if not quick:
-        gen_runs += [("RingMergeGen", "MC_gen_n2_full.cfg", {"@@NSLICES@@": 4, "@@SLICE@@": ctx.seed % 4}),
-                     ("PartitionMergeGen", "MC_pgen_two.cfg", None)]
+        gen_runs += [("RingMergeGen", "MC_gen_n2_full.cfg", {"@@NSLICES@@": 8, "@@SLICE@@": ctx.seed % 8}),
+                     ("PartitionMergeGen", "MC_pgen_own2.cfg", None), ("PartitionMergeGen", "MC_pgen_two.cfg", None)]
     for module, cfg, subst in gen_runs:
         r = rc.tlc_ok(ctx, module, cfg, subst=subst)
         if r.emitted == 0:
